@@ -111,7 +111,7 @@ TEXT["C05"] = dict(
     text="Invariant theorem (Coq kernel, no axioms) over an address/allocation/GC transition system with an arbitrary collector and allocator: if the state retains "
          "its placeholders then in every reachable world every listed variable is live and no later allocation is classified as a variable, for every interleaving of "
          "NewVar/drop/GC/alloc; the numbers-only representation is refuted by a 4-step schedule. The model's single abstraction (placeholder reachable from a listing "
-         "state) is probed on the real code: finalizers on placeholders, CastVar of fresh constants after forced GC, ConcatO answer multisets under GC-percent sweeps "
+         "state) is probed on the real code: finalizers on placeholders of single lineages and of trees of sibling / cousin states kept alive together, CastVar of fresh constants after forced GC, ConcatO answer multisets under GC-percent sweeps "
          "with GC forced at every goal boundary.",
     note="partial: what the real Go collector/allocator do is runtime behaviour that the model cannot exhibit; trusted: Go GC frees only unreachable objects and does not move them",
     technique="Coq invariant proof over an LTS (all schedules) + runtime probes (finalizers, forced GC)",
@@ -148,7 +148,9 @@ TEXT["C12"] = dict(
     text="Permit/ticker LTS composed with a task tree (parents hold a permit while waiting for children), schedules as label lists (Coq kernel, no axioms): with a non-blocking "
          "release a release step is always enabled; for every max >= 1 every schedule of a finite task tree terminates (strictly decreasing measure incl. ticks) and no non-final "
          "configuration is stuck; limited runs project onto unlimited runs and every complete run delivers a permutation of all answers; blocking release is refuted by a concrete "
-         "deadlock schedule (max = 1). Tie: real ConcatO searches under SetMaxRoutines(max), max in 1..100, must finish with the unlimited multiset.",
+         "deadlock schedule (max = 1), and so is the check-then-act hand-back `if len(ch)==cap(ch) {return}; ch <- x` (two goroutines finishing together: the second send blocks under every continuation). "
+         "Tie: real ConcatO searches under SetMaxRoutines(max), max in 1..100, must finish with the unlimited multiset; one limited context reused for several searches with idle refill periods; "
+         "disjunctions whose sibling branches finish at the same instant under max in 1..3.",
     note="partial: timing relative to the 10ms refill period is runtime; the limiter model is a hand abstraction of limit.go checked through the termination/multiset oracle",
     technique="Coq measure/simulation proofs over an LTS (all schedules) + runtime probes",
 )
@@ -166,69 +168,6 @@ TEXT["C17"] = dict(
          "the harness's direct matcher/equivalence oracle; the step from the logical reading Den to the answers gomini returns under every schedule is C06 (and C02/C03 for the shared search model)",
     technique="translation of the Go relation DSL to Coq on every run + Coq proof (least-fixed-point induction, structural induction) + oracle comparison on the real code",
 )
-TEXT["C19"] = dict(
-    text="example/peano's Succ/Natplus/Leq/Half are re-translated from peano.go on every run and the theorems re-checked (Coq kernel, no axioms): Natplus(x,y,z) iff "
-         "x+y=z, Leq iff x<=y, Half iff y = x/2, general (non-ground) denotations, Makenat/Parsenat mutually inverse on Peano-shaped terms; via C02/C03 every "
-         "instantiation of an answer by naturals is a satisfying tuple and every satisfying tuple is an instance of an answer at a finite position. Tie: translation + "
-         "cell traces of the real relations in all modes on naturals <= 6 + arithmetic oracles on instantiated answers.",
-    note="trusted: Coq kernel; the translator genrels; harness oracles",
-    technique="translation of the Go relation DSL to Coq + Coq proof + differential correspondence",
-)
-TEXT["C05"] = dict(
-    text="Invariant theorem (Coq kernel, no axioms) over an address/allocation/GC transition system with an arbitrary collector and allocator: if the state retains "
-         "its placeholders then in every reachable world every listed variable is live and no later allocation is classified as a variable, for every interleaving of "
-         "NewVar/drop/GC/alloc; the numbers-only representation is refuted by a 4-step schedule. The model's single abstraction (placeholder reachable from a listing "
-         "state) is probed on the real code: finalizers on placeholders, CastVar of fresh constants after forced GC, ConcatO answer multisets under GC-percent sweeps "
-         "with GC forced at every goal boundary.",
-    note="partial: what the real Go collector/allocator do is runtime behaviour that the model cannot exhibit; trusted: Go GC frees only unreachable objects and does not move them",
-    technique="Coq invariant proof over an LTS (all schedules) + runtime probes (finalizers, forced GC)",
-)
-TEXT["C18"] = dict(
-    text="Case-by-case model of reflecttools.Map/Any/ZipReduce over a value universe (nil interface, nil/non-nil pointers, struct pointers, slices, maps, scalars) with call "
-         "logs; theorems (Coq kernel, no axioms): identity Map returns the value itself, f applied exactly once per field/element/map value in index order (maps up to "
-         "permutation), shape preserved, Any iff some child satisfies the predicate with short-circuit log, ZipReduce = left fold with early exit at the first zero, zero on "
-         "shape mismatch or exactly one nil, init on both nil. Tie: differential execution with call-logging functions over a family of Go types, plus freshness / "
-         "argument-unmodified / deep-equality oracles.",
-    note="trusted: Coq kernel + vm_compute; package reflect is modelled not verified; types are not modelled",
-    technique="Coq proof (case analysis / list induction over the reflect model) + differential correspondence",
-)
-
-TEXT["C10"] = dict(
-    text="Theorems (Coq kernel, no axioms) with the scheduler's choices as universally quantified inputs: for EVERY arrival permutation concurrent.DisjPlus / "
-         "DisjPlusZzz build exactly the stream of mini.DisjPlusNoZzz / mini.DisjPlus (stream equality, hence the same sequence on every run); DisjPlusNoOrder has the "
-         "same answers and for finite streams a permutation-equal answer list; for EVERY select pick sequence ConjPlus returns either the sequential bind stream or nil, "
-         "and nil only when some goal fails immediately, in which case (soundness+completeness of the search) the sequential conjunction has no answer either. Tie: cell "
-         "traces of the concurrent combinators under injected delays / GOMAXPROCS / repeated runs against the sequential model; thorough tier also under the race detector.",
-    note="partial: data-race freedom is a statement about the Go memory model that the model cannot exhibit (race-detector run is supporting validation); Go scheduler and channels trusted",
-    technique="Coq proof (schedule as explicit input: permutations / pick lists; monotonicity of immediate failure via soundness+completeness) + differential correspondence",
-)
-TEXT["C11"] = dict(
-    text="LTS models with schedules as label lists (Coq kernel, no axioms): ConjPlus/DisjPlus message protocol - with buffered channels (cap >= n, cap2 >= 1) no send ever blocks "
-         "and terminal configurations have no live sender, for every schedule and early-return point; exact leak law and worst case for unbuffered channels (refutation); "
-         "post-cancel execution - with Go refusing to spawn under a cancelled context the remaining steps are bounded by the remaining syntactic size and nothing blocks, "
-         "without it a recursive relation spawns unboundedly (refutation); the limiter ticker exits within 2 steps after cancel iff its send is guarded. Tie: goroutine-count "
-         "deltas of the real code after searches end / are cancelled at 0..k answers, with and without SetMaxRoutines, one process per case.",
-    note="partial: 'bounded time' is bounded steps in the model, wall-clock is runtime; the protocol models are hand abstractions of conj.go / limit.go / stream.go checked only through the goroutine-count oracle",
-    technique="Coq invariant/measure proofs over LTS models (all schedules) + goroutine-leak probes on the real code",
-)
-TEXT["C12"] = dict(
-    text="Permit/ticker LTS composed with a task tree (parents hold a permit while waiting for children), schedules as label lists (Coq kernel, no axioms): with a non-blocking "
-         "release a release step is always enabled; for every max >= 1 every schedule of a finite task tree terminates (strictly decreasing measure incl. ticks) and no non-final "
-         "configuration is stuck; limited runs project onto unlimited runs and every complete run delivers a permutation of all answers; blocking release is refuted by a concrete "
-         "deadlock schedule (max = 1). Tie: real ConcatO searches under SetMaxRoutines(max), max in 1..100, must finish with the unlimited multiset.",
-    note="partial: timing relative to the 10ms refill period is runtime; the limiter model is a hand abstraction of limit.go checked through the termination/multiset oracle",
-    technique="Coq measure/simulation proofs over an LTS (all schedules) + runtime probes",
-)
-TEXT["C17"] = dict(
-    text="The bodies of the gomini/regex relations are re-translated from the Go source on every run; denotation theorems over the regenerated terms against an inductive "
-         "language semantics with nullable/deriv (see Props/C17.v for the current list). Tie: translation + ALL answers of the real NullO/IsNullO/DerivO/SDerivO/MatchO/IsMatchO "
-         "on ground regexes over {a,b} and strings of length <= 3 under both placeholder policies against a direct Brzozowski matcher and a language-equivalence check; "
-         "generation mode for the first n answers.",
-    note="trusted: the translator genrels; the harness's direct matcher/equivalence oracle; gomini's concurrent execution is covered by C06",
-    technique="translation of the Go relation DSL to Coq + Coq proof + oracle comparison on the real code",
-)
-
-
 TEXT["C14"] = dict(
     text="Theorems (Coq kernel, no axioms) over the gocc tables and the grammar re-transcribed from /repo on every run: boolean validators of the "
          "lexer DFA and of the LR tables hold (vm_compute over the finite tables) and imply, for EVERY byte string and every behaviour of the "
